@@ -409,7 +409,41 @@ func collectRegexVars(files map[string]*ast.File) {
 // variables it refers to — as a sorted set (the order of use is not a fact the model depends on)
 func regexLiterals(fd *ast.FuncDecl) []string {
 	set := map[string]bool{}
+	seen := map[*ast.FuncDecl]bool{}
+	var visit func(fd *ast.FuncDecl, depth int)
+	visit = func(fd *ast.FuncDecl, depth int) {
+		if fd == nil || fd.Body == nil || seen[fd] || depth > 3 {
+			return
+		}
+		seen[fd] = true
+		regexLiteralsOf(fd, set, func(callee string) { visit(fnsByPkg[pkgOfFunc[fd]][callee], depth+1) })
+	}
+	visit(fd, 0)
+	res := []string{}
+	for k := range set {
+		res = append(res, k)
+	}
+	sort.Strings(res)
+	return res
+}
+
+// fnsByPkg: package name -> function name -> declaration, of every package read so far
+var fnsByPkg = map[string]map[string]*ast.FuncDecl{}
+
+// regexLiteralsOf: the patterns of one function body; `follow` is called for every function of the same package the
+// body calls (the parser may have been split into helpers)
+func regexLiteralsOf(fd *ast.FuncDecl, set map[string]bool, follow func(string)) {
 	ast.Inspect(fd.Body, func(n ast.Node) bool {
+		if c, ok := n.(*ast.CallExpr); ok {
+			switch f := c.Fun.(type) {
+			case *ast.Ident:
+				follow(f.Name)
+			case *ast.SelectorExpr:
+				if _, isIdent := f.X.(*ast.Ident); isIdent {
+					follow(f.Sel.Name)
+				}
+			}
+		}
 		if c, ok := n.(*ast.CallExpr); ok && exprString(c.Fun) == "regexp.MustCompile" && len(c.Args) == 1 {
 			if bl, ok := c.Args[0].(*ast.BasicLit); ok {
 				set[strings.Trim(bl.Value, "`\"")] = true
@@ -432,12 +466,6 @@ func regexLiterals(fd *ast.FuncDecl) []string {
 		}
 		return true
 	})
-	res := []string{}
-	for k := range set {
-		res = append(res, k)
-	}
-	sort.Strings(res)
-	return res
 }
 
 // pkgOfFunc: the package name of every function declaration seen by funcs()
